@@ -262,15 +262,19 @@ def rule_macs(ctx) -> None:
             ok = len(r) == 1 and isinstance(r[0].value, ast.Call) and A.call_name(r[0].value) == "finalize"
             chk.decide(ok, "C09.wrapper-binding", fn.qual + " return", "returns the finalised digest", norm(r[0]) if r else "", "return obj.finalize()", A.loc(rp, fn.node))
         else:
-            # verify in try: True on success, False on InvalidSignature only
+            # verify inside a try: completing it leads to `return True` (inside or after the try), InvalidSignature alone to `return False`
             trs = [n for n in A.walk_no_nested(fn.node) if isinstance(n, ast.Try)]
             ok = False
             if len(trs) == 1:
                 t = trs[0]
-                body_ret = [s for s in t.body if isinstance(s, ast.Return)]
-                h_ok = len(t.handlers) == 1 and norm(t.handlers[0].type) == "InvalidSignature" and [norm(s) for s in t.handlers[0].body] == ["return False"]
-                ok = bool(body_ret) and norm(body_ret[0]) == "return True" and h_ok and any(isinstance(s, ast.Expr) and A.call_name(s.value) == "verify" for s in t.body if isinstance(s, ast.Expr) and isinstance(s.value, ast.Call)) \
-                    and [type(s).__name__ for s in t.body].index("Return") > 0
+                h_ok = len(t.handlers) == 1 and norm(t.handlers[0].type) == "InvalidSignature" and [norm(s) for s in t.handlers[0].body] == ["return False"] and not t.finalbody
+                in_try = any(isinstance(s, ast.Expr) and isinstance(s.value, ast.Call) and A.call_name(s.value) == "verify" for s in t.body)
+                is_verify = lambda s: isinstance(s, ast.Expr) and isinstance(s.value, ast.Call) and A.call_name(s.value) == "verify"  # noqa: E731
+                gp = A.gpaths(fn.node)
+                with_v = [q for q in gp if any(is_verify(s) for s in q.stmts)]
+                without = [q for q in gp if not any(is_verify(s) for s in q.stmts)]
+                ok = h_ok and in_try and bool(with_v) and all(q.end == "return" and norm(q.last) == "return True" and is_verify(q.stmts[-2]) for q in with_v) \
+                    and bool(without) and all(q.end == "return" and norm(q.last) == "return False" for q in without)
             chk.decide(ok, "C09.validate-polarity", fn.qual, "verify() success -> True, InvalidSignature -> False", norm(trs[0])[:120] if trs else "no try", "try: verify; return True / except InvalidSignature: return False", A.loc(rp, fn.node))
     # hkdf
     fn = ctx.func(HKDF, "hkdf")
@@ -374,9 +378,12 @@ def rule_crc(ctx) -> None:
     chk.decide(bool(r) and norm(r[0].value) in ("self.calculate(data) == crc", "crc == self.calculate(data)"), "C09.crc-binding", ver.qual, "verify compares the computed CRC with the given one",
                norm(r[0]) if r else "", "self.calculate(data) == crc", A.loc(CRC, ver.node))
     fca = ctx.func(CRC, "from_crc_algorithm")
-    r = A.returns_in(fca.node)
-    e = A.inline_locals(fca.node, r[0].value) if r else None
-    chk.decide(e is not None and norm(e) == "Crc(CRC_ALGORITHMS[crc_alg])", "C09.crc-binding", fca.qual, "returns Crc(CRC_ALGORITHMS[crc_alg])", norm(e) if e is not None else "", "", A.loc(CRC, fca.node))
+    rets = [q for q in A.spaths(fca.node) if q.end == "return"]
+    # the parameter set is looked up in CRC_ALGORITHMS by the requested algorithm: by index, or by .get() with the miss rejected
+    def key(q):
+        return "CrcAlg.from_label(crc_alg.lower())" if q.assumes("isinstance(crc_alg, str)", True) else "crc_alg"
+    good = [q for q in rets if q.vtext == f"Crc(CRC_ALGORITHMS[{key(q)}])" or (q.vtext == f"Crc(CRC_ALGORITHMS.get({key(q)}))" and q.assumes(f"CRC_ALGORITHMS.get({key(q)}) is None", False))]
+    chk.decide(bool(rets) and len(good) == len(rets), "C09.crc-binding", fca.qual, "returns Crc(CRC_ALGORITHMS[crc_alg])", "; ".join(q.vtext for q in rets if q not in good), "", A.loc(CRC, fca.node))
 
 
 KEYSTORE_REF = {
@@ -444,23 +451,39 @@ def rule_kdf(ctx, P: str = "C09") -> None:
     gs = [norm(s.test) for s in A.body_of(fn.node) if isinstance(s, ast.If) and A.always_raises(s.body)]
     chk.decide("kdk_access_rights not in [0, 1, 2, 3]" in gs and "key_length not in [128, 256]" in gs, f"{P}.kdf-guards", fn.qual, "rejects rights outside 0..3 and key lengths other than 128/256", f"{gs}", "", A.loc(KDF, fn.node))
     dk = ctx.func(KDF, "_derive_key")
-    part = [c for c in A.calls_in(dk.node, "partial")]
-    okp = bool(part) and norm(part[0].args[0]) == "_get_key_derivation_data" and all(k.arg == norm(k.value) for k in part[0].keywords) and \
-        {k.arg for k in part[0].keywords} == {"derivation_constant", "kdk_access_rights", "mode", "key_length"}
-    chk.decide(okp, f"{P}.kdf-derive", dk.qual + " partial", "derivation data is bound to the caller's own parameters", norm(part[0])[:160] if part else "", "", A.loc(KDF, dk.node))
-    cm = [c for c in A.calls_in(dk.node, "cmac")]
-    its = []
-    for c in cm:
-        d = A.arg_of(c, 1, "data")
-        k = A.arg_of(c, 0, "key")
-        # positional cmac(key, data)
-        if k is None or d is None:
-            its.append(("?", "?"))
-            continue
-        it = [kw.value for kw in d.keywords if kw.arg == "iteration"] if isinstance(d, ast.Call) else []
-        its.append((norm(k), ctx.prog.fold(it[0], dk.module) if it else None))
-    cond256 = any(isinstance(s, ast.If) and norm(s.test) == "key_length == 256" and any(isinstance(x, ast.AugAssign) and isinstance(x.op, ast.Add) and A.calls_in(x, "cmac") for x in s.body) for s in A.body_of(dk.node))
-    chk.decide(its == [("key", 1), ("key", 2)] and cond256, f"{P}.kdf-derive", dk.qual, "CMAC(key, data(i=1)) and, for 256-bit keys, || CMAC(key, data(i=2))", f"cmac calls {its}, 256-bit extension {cond256}", "", A.loc(KDF, dk.node))
+    # _derive_key evaluated on a model: the derivation record is a symbolic function of its keyword arguments, CMAC a symbolic
+    # function of (key, data).  Loop, comprehension, += chain and functools.partial / direct calls are all covered by evaluation.
+    probs = []
+    n_models = 0
+    for kl in (128, 256):
+        for mode in ("KDK", "BLK"):
+            params = {"derivation_constant": 7, "kdk_access_rights": 2, "mode": mode, "key_length": kl}
+
+            def cv(c: ast.Call, ev):
+                f = norm(c.func)
+                kw = {k.arg: ev.ev(k.value) for k in c.keywords if k.arg}
+                if f in ("functools.partial", "partial") and c.args and norm(c.args[0]) == "_get_key_derivation_data":
+                    return ordereval.Obj(_partial=kw)
+                if isinstance(c.func, ast.Name) and isinstance(ev.env.get(c.func.id), ordereval.Obj) and "_partial" in ev.env[c.func.id].__dict__ and not c.args:
+                    kw = dict(ev.env[c.func.id].__dict__["_partial"], **kw)
+                    f = "_get_key_derivation_data"
+                if f == "_get_key_derivation_data" and not c.args:
+                    if {k: v for k, v in kw.items() if k != "iteration"} != params or not isinstance(kw.get("iteration"), int):
+                        return b"D?"
+                    return b"D" + bytes([kw["iteration"]])
+                if f == "cmac" and len(c.args) + len(c.keywords) == 2:
+                    return b"<" + ev.ev(A.arg_of(c, 0, "key")) + b"|" + ev.ev(A.arg_of(c, 1, "data")) + b">"
+                return ordereval.NOT_MODELLED
+            env = dict(params, key=b"K")
+            try:
+                out = ordereval.Evaluator(env, None, opaque_return=False, call_value=cv).run(A.body_of(dk.node))
+            except ordereval.Unsupported as ex:
+                raise AnalysisError(f"C09.kdf-derive: _derive_key left the fragment: {ex}")
+            n_models += 1
+            want_b = b"<K|D\x01>" + (b"<K|D\x02>" if kl == 256 else b"")
+            if not (out.kind == "return" and out.value == want_b):
+                probs.append(f"key_length {kl}, mode {mode}: {out.kind} {out.value!r} (expected CMAC(key, data(1)){' || CMAC(key, data(2))' if kl == 256 else ''})")
+    chk.decide(not probs, f"{P}.kdf-derive", dk.qual, f"CMAC(key, data(i=1)) and, for 256-bit keys, || CMAC(key, data(i=2)); the record is bound to the caller's own parameters ({n_models} models)", "; ".join(probs[:2]), "", A.loc(KDF, dk.node))
     for name, const, mode in (("derive_block_key", "block_number", "BLK"), ("derive_kdk", "timestamp", "KDK")):
         f2 = ctx.func(KDF, name)
         c = [x for x in A.calls_in(f2.node, "_derive_key")]
@@ -518,7 +541,8 @@ def rule_counter(ctx) -> None:
         w = fold(tb.args[0])
         order_out = norm(tb.args[1])
         order_attr = norm(st["self._ctr_byteorder_encoding"])
-        ok = (k1 == k2 == -w and w == 4 and norm(e.left) == "self._nonce" and norm(tb.func.value) == "self._ctr" and A.call_name(fb) == "from_bytes"
+        # the block is checked to be 16 bytes, so an index from the end and one from the start denote the same split point
+        ok = (isinstance(k1, int) and isinstance(k2, int) and k1 % 16 == k2 % 16 == 16 - w and w == 4 and norm(e.left) == "self._nonce" and norm(tb.func.value) == "self._ctr" and A.call_name(fb) == "from_bytes"
               and order_in.replace("self._ctr_byteorder_encoding", order_attr) == order_out.replace("self._ctr_byteorder_encoding", order_attr)
               and nonce_part.slice.lower is None and fb.args[0].slice.upper is None)
         detail = f"nonce[:{k1}] | ctr=from_bytes(nonce[{k2}:], {order_in}) -> value = _nonce + _ctr.to_bytes({w}, {order_out})"
